@@ -257,10 +257,17 @@ def runConc (cache : Cache) (proto k : Nat) (rest : List String) : Cache × Opti
     | (cache', _), _ => (cache', none)
   | _ => (cache, none)
 
+/-- `l.Nodup ∧ ∀ id ∈ l, 1 ≤ id < cap`, in linear time (a table of the ids seen) -/
+def nodupInRange (cap : Nat) (l : List Nat) : Bool :=
+  (l.foldl (fun (p : Array Bool × Bool) id =>
+      if !p.2 then p
+      else if id < 1 || cap ≤ id || p.1.getD id false then (p.1, false)
+      else (p.1.setIfInBounds id true, true)) (Array.replicate cap false, true)).2
+
 /-- the property's monitors evaluated on the model run (they can never fire: Proofs/C08) -/
 def monitorsOk (obs : List String) (st : State) : Bool :=
   let n := 64 * st.sh.words.length
-  decide st.held.Nodup && st.held.all (fun id => 1 ≤ id && id < n)
+  nodupInRange n st.held
     && decide (available st.sh = ((n - 1 - st.held.length : Nat) : Int))
     && obs.all (fun o => !(o.splitOn "crash").length > 1)
 
